@@ -549,6 +549,9 @@ func checkBuilderAppendOnly(c *Ctx, key string, call *ssa.Call, slice ssa.Value)
 			if _, ok := isFieldAddr(st.Addr, bfld); !ok {
 				return
 			}
+			if copyConstructStore(st) {
+				return // a new builder initialised with a clone of another builder's list (order kept by slices.Clone)
+			}
 			n++
 			k2 := fmt.Sprintf("%s: store #%d to builder field %s in %s", key, n, bfld.Name(), fnName(f))
 			if el, ok := sliceLitElems(st.Val); ok && len(el) == 0 {
